@@ -619,6 +619,7 @@ func c03bodies(dir string) []string {
 		"package " + pkg + "\n\nvar z = 0\nvar E = 1 / z\n\nfunc main() {\n\tvar m map[string]int\n\tm[\"k\"] = 1\n}\n",
 		"package " + pkg + "\n\nvar B = \"\xff\xfe\"\n\nfunc main() {\n\tpanic(B)\n}\n",
 		"package " + pkg + "\n\nfunc main() {\n\tmain()\n}\n\nvar F2 = func(a int) int {\n\treturn a\n}\n\n1 + 2\n",
+		"//TESTFILE\npackage " + pkg + "\n\nvar T = 1\n\nfunc init() {\n\tpanic(\"a _test.go file ran\")\n}\n", // stored as f<k>_test.go: a directory may hold nothing but such files
 	}
 }
 
@@ -647,7 +648,11 @@ func c03treeSpace(thorough bool) c03space {
 			}
 			dir := c03dirs[s/nb]
 			name := fmt.Sprintf("%s/f%d.go", dir, f)
-			files[name] = c03bodies(dir)[s%nb]
+			body := c03bodies(dir)[s%nb]
+			if strings.HasPrefix(body, "//TESTFILE") {
+				name = fmt.Sprintf("%s/f%d_test.go", dir, f)
+			}
+			files[name] = body
 		}
 		c := c03case{Files: files, Opts: opts, Entry: entry, Fault: fault}
 		if entry == 0 {
@@ -742,20 +747,26 @@ func c03exec(c c03case, mask int) string {
 		return "error without a stage prefix: " + firstLine(res.Err.Error())
 	}
 	// what the input defined
-	for _, name := range []string{"main.main", "main.f", "main.x", "main.F", "main.T", "main.F2", "a.F", "main._"} {
+	for _, name := range []string{"main.main", "main.f", "main.x", "main.F", "main.T", "main.F2", "a.F", "main._", "main.nosuch"} {
 		var v goatlang.Value
 		func() {
 			defer func() { recover() }()
 			v = m.VM.Get(name)
 		}()
-		if v.Type() != goatlang.TypeFunc && name != "main.x" {
+		if v.Type() != goatlang.TypeFunc && name != "main.x" && name != "main.nosuch" {
 			continue
 		}
 		for na := 0; na <= 2; na++ {
-			for nr := 0; nr <= 2; nr++ {
+			if name == "main.nosuch" && na > 0 {
+				break
+			}
+			for nr := -1; nr <= 2; nr++ {
+				if name == "main.nosuch" && nr > 0 {
+					break
+				}
 				args := []goatlang.Value{goatlang.Int(1), goatlang.String("s")}[:na]
 				var r goat.Result
-				if name == "main.main" && na == 0 {
+				if (name == "main.main" || name == "main.nosuch") && na == 0 {
 					r = m.Call(name, nr)
 				} else {
 					r = m.Func(v, nr, args...)
@@ -768,6 +779,9 @@ func c03exec(c c03case, mask int) string {
 	}
 	// the VM must stay usable: whatever the input did (or failed to do half-way), a later, unrelated evaluation on the
 	// same VM returns as well (only that it returns is checked: the input may legitimately have redefined anything)
+	if !c03probe {
+		return ""
+	}
 	for _, probe := range []string{"q9z := 1\nq9z + 1", "func q9f(a int) int {\n\tfor i := 0; i < 2; i++ {\n\t\ta += i\n\t}\n\treturn a\n}\nq9f(1)"} {
 		r := m.Eval(fstest.MapFS{}, probe)
 		if r.HostPanic != nil && !r.Budget {
@@ -792,8 +806,15 @@ func c03check(c c03case) string {
 		if c.Idx%8 == 7 {
 			masks = []int{7, 0}
 		}
+		if c.Space == "seeds-dev2" && !c03thorough {
+			masks = masks[:1] // quick: the nine million two-deviation inputs run under one option subset each (by index), thorough under two
+		}
 	}
-	for _, mask := range masks {
+	if c.Space == "loadsrc" && !c03thorough && len(masks) > 1 {
+		masks = masks[:1]
+	}
+	for k, mask := range masks {
+		c03probe = k == 0 // the usable-VM probes follow the first run of a case only
 		if p := c03exec(c, mask); p != "" {
 			return fmt.Sprintf("[options mask %d] %s", mask, p)
 		}
@@ -802,6 +823,8 @@ func c03check(c c03case) string {
 }
 
 // --- child process ---------------------------------------------------------------------------
+
+var c03thorough, c03probe bool
 
 func c03child(args []string) {
 	// args: tier space from to
@@ -812,6 +835,7 @@ func c03child(args []string) {
 		debug.SetMaxStack(64 << 20)
 	}
 	thorough := args[0] == "thorough"
+	c03thorough = thorough
 	from, _ := strconv.Atoi(args[2])
 	to, _ := strconv.Atoi(args[3])
 	var sp *c03space
@@ -827,7 +851,7 @@ func c03child(args []string) {
 	w := bufio.NewWriter(os.Stdout)
 	defer w.Flush()
 	for i := from; i < to && i < sp.size; i++ {
-		if (i-from)%2000 == 0 {
+		if (i-from)%100 == 0 {
 			fmt.Fprintf(w, "AT %d\n", i)
 			w.Flush()
 		}
@@ -883,7 +907,7 @@ func c03runChild(tier, space string, from, to int, timeout time.Duration) c03chi
 
 func c03run(r *report.Run) {
 	thorough := r.Tier == "thorough"
-	r.Rule("bytes: all strings of length <=2 over 256 bytes and length 3 over 48 byte classes; tokens: all strings of length <=2 over a 121-token alphabet and length 3 over a 30-token sharp sub-alphabet (thorough: all); seeds (every string of the repository's test tables + 43 statement-form programs incl. the four known crashers) with 0 and 1 token deviation (delete/replace/insert at every position with every token of the sharp (thorough: full) alphabet) and 2 deviations (all pairs of deletions; for short seeds all pairs of edits over a small alphabet); trees: all file trees of <=2 (3) files over 4 directories x 15 bodies x 7 fault positions x 8 option subsets x 3 entry points; each case through Eval/Load, then Call/Func with 0..2 arguments and 0..2 requested results on what it defined, then two unrelated Evals on the same VM (the VM must stay usable); non-trivial = every case (each is a distinct input/configuration)")
+	r.Rule("bytes: all strings of length <=2 over 256 bytes and length 3 over 48 byte classes; tokens: all strings of length <=2 over a 121-token alphabet and length 3 over a 30-token sharp sub-alphabet (thorough: all); seeds (every string of the repository's test tables + 43 statement-form programs incl. the four known crashers) with 0 and 1 token deviation (delete/replace/insert at every position with every token of the sharp (thorough: full) alphabet) and 2 deviations (all pairs of deletions; for short seeds all pairs of edits over a small alphabet); trees: all file trees of <=2 (3) files over 4 directories x 16 bodies (one of them stored as a _test.go file) x 7 fault positions x 8 option subsets x 3 entry points; each case through Eval/Load, then Call/Func with 0..2 arguments and -1..2 requested results on what it defined (and on a variable and an undefined name), then two unrelated Evals on the same VM (the VM must stay usable); non-trivial = every case (each is a distinct input/configuration)")
 	r.Assume("a run that exhausts the instruction/depth budget counts as terminated by the harness (the property excepts non-terminating scripts)", "front-end stages have no budget: a child that does not finish its range within the watchdog is bisected down to the single input, which is then reported", "os.WriteFile/os.ReadFile/time.Sleep are replaced by harmless natives for the enumeration")
 	spaces := c03spaces(thorough)
 	type job struct {
@@ -921,15 +945,26 @@ func c03run(r *report.Run) {
 			return
 		}
 		mu.Lock()
-		tooMany := crashes >= 10 || r.Violations() >= 200
+		tooMany := crashes >= 4 || r.Violations() >= 200
 		mu.Unlock()
 		if tooMany {
 			r.NotExhaustive("stopped early: enough violations found")
 			return
 		}
-		timeout := 10 * time.Minute
+		// a chunk normally takes seconds; a hang must be isolated within the run's deadline, so the watchdogs are short
+		// (the scale inputs are the slow ones: seconds each)
+		timeout := 150 * time.Second
+		if depth > 0 {
+			timeout = 45 * time.Second
+		}
 		if j.to-j.from == 1 {
-			timeout = 60 * time.Second
+			timeout = 20 * time.Second
+		}
+		if j.sp.name == "scale" {
+			timeout = 5 * time.Minute
+			if j.to-j.from == 1 {
+				timeout = 2 * time.Minute
+			}
 		}
 		res := c03runChild(r.Tier, j.sp.name, j.from, j.to, timeout)
 		for i, p := range res.viol {
@@ -954,7 +989,13 @@ func c03run(r *report.Run) {
 			return
 		}
 		r.Eval(res.at - j.from)
-		// split the remainder [res.at, to)
+		// the culprit is within 100 inputs of res.at (progress is reported every 100): that window is split, what
+		// follows it is a job of its own
+		if j.to-res.at > 128 {
+			handle(job{j.sp, res.at, res.at + 128}, depth+1)
+			handle(job{j.sp, res.at + 128, j.to}, depth+1)
+			return
+		}
 		lo, hi := res.at, j.to
 		if hi-lo <= 16 {
 			for i := lo; i < hi; i++ {
